@@ -165,3 +165,28 @@ Theorem C17_step_allowed_all_calls : forall cx s g ev s' out tags,
   allowed_x s g cx ev (s_state s') /\ inv s' (ghost_step_x cx s g ev s' out).
 Proof. exact step_x_ok. Qed.
 Print Assumptions C17_step_allowed_all_calls.
+
+(* --- the listen endpoint (bound local address) --- *)
+
+(* listen() records exactly the endpoint it was given. *)
+Theorem C17_listen_sets_endpoint : forall s ep s',
+  tcp_listen s ep = Ok s' -> s_listen_endpoint s' = ep /\ s_state s' = Listen.
+Proof. exact listen_sets_endpoint. Qed.
+Print Assumptions C17_listen_sets_endpoint.
+
+(* No received segment changes it: the RST that returns a half-open connection to LISTEN restores
+   exactly that endpoint - address and port - and leaves no connection tuple behind. *)
+Theorem C17_relisten_restores_endpoint : forall cx s ip r s' out tags,
+  wf_repr r -> tcp_step cx s (EvSegment ip r) = Ok (s', out, tags) ->
+  s_listen_endpoint s' = s_listen_endpoint s /\
+  (s_state s = SynReceived -> s_state s' = Listen -> s_tuple s' = None).
+Proof. exact segment_keeps_listen_endpoint. Qed.
+Print Assumptions C17_relisten_restores_endpoint.
+
+(* A listener bound to one local address is untouched by segments addressed to another one. *)
+Theorem C17_bound_listener_ignores_other_address : forall cx s ip r a s' out tags,
+  s_state s = Listen -> s_tuple s = None -> le_addr (s_listen_endpoint s) = Some a ->
+  ip_dst ip <> a ->
+  tcp_step cx s (EvSegment ip r) = Ok (s', out, tags) -> s' = s.
+Proof. exact bound_listener_ignores_other_address. Qed.
+Print Assumptions C17_bound_listener_ignores_other_address.
